@@ -475,7 +475,10 @@ class Anchors:
         except AnchorMissing:
             mt = "Metrics"
         if self.trait_call(site, mt):
-            return strip_generics(site.fn["path"]).split("::")[-1]
+            m = strip_generics(site.fn["path"]).split("::")[-1]
+            if self.forwarders().get(site.body.path) == (mt, m):
+                return None  # forwarding impl of the metrics trait: not a feeder of its own
+            return m
         return None
 
     def _mt(self):
@@ -483,6 +486,54 @@ class Anchors:
             return self.metrics_trait
         except AnchorMissing:
             return "Metrics"
+
+    def forwarders(self):
+        """bodies of forwarding impls of the crate's callback traits on a pointer-like self type
+        (`impl<S: Subscriber + ?Sized> Subscriber for Arc<S>`, `impl Metrics for Arc<M>`,
+        `impl Middleware for Box<M>`): {body path: (trait, method)} for every method whose body
+        calls the same method of the same trait on every returning path.  Such a method is
+        transparent: its inner call is not a call site of its own, and a call that resolves to
+        it still is the (virtual) callback call it wraps."""
+        fw = getattr(self, "_forwarders", None)
+        if fw is not None:
+            return fw
+        fw = {}
+        self._forwarders = fw  # (set first: the path enumeration below asks for events)
+        names = {"Reducer", "Middleware", "Subscriber", "Dispatcher", "Subscription", self._mt()}
+        for b in self.p.bodies:
+            if b.is_closure() or not b.j.get("impl_trait"):
+                continue
+            tr = b.j["impl_trait"].split("::")[-1].split("<")[0]
+            if tr not in names:
+                continue
+            adt = b.j.get("impl_adt")
+            if adt and adt in self.p.facts.adts and self.p.facts.adts[adt].get("krate") == self.crate:
+                continue  # an impl on one of the crate's own types is a real implementation
+            st = b.j.get("impl_self") or ""
+            if not any(st.startswith(p_) for p_ in ("std::sync::Arc<", "std::boxed::Box<", "std::rc::Rc<", "&")):
+                continue
+            m = b.j.get("name")
+            inner = [s for s in self.p.sites(b) if s.fn and s.fn.get("krate") == self.crate and (s.fn.get("trait") or "").split("::")[-1] == tr
+                     and strip_generics(s.fn["path"]).split("::")[-1] == m]
+            if len(inner) != 1:
+                continue
+            cfg = self.p.cfg(b)
+            # every return is reached through the inner call
+            blocked = {inner[0].bb}
+            seen = set()
+            work = [0]
+            leaks = False
+            while work:
+                x = work.pop()
+                if x in seen or x in blocked:
+                    continue
+                seen.add(x)
+                if b.blocks[x]["term"]["k"] == "return":
+                    leaks = True
+                work.extend(y for y in cfg.succ[x] if not b.blocks[y].get("cleanup"))
+            if not leaks:
+                fw[b.path] = (tr, m)
+        return fw
 
     def event(self, site):
         """event label of a call site or None"""
@@ -494,7 +545,10 @@ class Anchors:
             tr = fn["trait"].split("::")[-1]
             m = strip_generics(fn["path"]).split("::")[-1]
             r = fn.get("resolved")
-            virtual = (r is None) or r.get("ikind") == "virtual"
+            fw = self.forwarders()
+            if fw.get(site.body.path) == (tr, m):
+                return None  # the inner call of a forwarding impl
+            virtual = (r is None) or r.get("ikind") == "virtual" or (r.get("ikind") == "item" and fw.get(r.get("path")) == (tr, m))
             if tr == "Reducer" and m == "reduce" and virtual:
                 return "REDUCE"
             if tr == "Middleware" and virtual:
